@@ -19,7 +19,11 @@ var satOverflowReviewed = map[string]string{
 	"execRegExp:arith": "int(lastIndex) + result[1]: for a global regexp index == lastIndex, which the range test 0 <= index <= len(target) above bounds on the path where a match exists; for a non-global one the sum is computed but only used under `if global`",
 }
 
+// satCtx: the context of the running SAT-overflow rule (for the call-site queries of floatInRange).
+var satCtx *Ctx
+
 func ruleSatOverflow(c *Ctx, r *R) {
+	satCtx = c
 	isNumberCall := func(v ssa.Value) bool {
 		call, ok := v.(*ssa.Call)
 		if !ok {
@@ -366,6 +370,12 @@ func floatInRange(fn *ssa.Function, v ssa.Value, at ssa.Instruction, d int, boun
 			case "Mod", "Remainder":
 				if _, ok := y.Call.Args[1].(*ssa.Const); ok {
 					return "the operand is math." + callee.Name() + "(x, constant): bounded by the modulus"
+				}
+				// the modulus is a parameter that every call site binds to a constant
+				if p, ok := y.Call.Args[1].(*ssa.Parameter); ok && satCtx != nil {
+					if ks, ok := satCtx.constArgsAtAllCallSites(p); ok && len(ks) > 0 {
+						return fmt.Sprintf("the operand is math.%s(x, m) and every one of the %d call sites passes a constant m", callee.Name(), len(ks))
+					}
 				}
 			case "Floor", "Ceil", "Trunc", "Round", "Abs":
 				if how := floatInRange(fn, y.Call.Args[0], at, d+1, bounded); how != "" {
